@@ -1199,6 +1199,16 @@ def O_rules(ctx, rule="O"):
         npe = strip_refs(expr_operand(newb, ops[fields.index("fn_ids_not_processed")]))
         ok2 = False
         why = "fn_ids_not_processed is not a collect() over the structure's nodes"
+        newb0, p_graph0, p_proc0 = newb, p_graph, p_proc
+        if npe.kind == "call" and npe[1] in fb.bodies and fb.bodies[npe[1]].kind == "fn" and not (fb.fns.get(npe[1]) or {}).get("public"):
+            # computed by a private helper (`Self::fn_ids_not_in(graph_structure, &fn_ids_processed)`): look at its body, with
+            # its parameters standing for the structure and the processed list
+            H_ = fb.bodies[npe[1]]
+            hg = [i + 1 for i, a_ in enumerate(npe[2]) if strip_refs(a_) == E(("arg", p_graph))]
+            hp = [i + 1 for i, a_ in enumerate(npe[2]) if strip_refs(a_) == E(("arg", p_proc)) or E(("arg", p_proc)) in list(walk_expr(strip_refs(a_)))]
+            re_h = return_expr(H_)
+            if len(hg) == 1 and len(hp) == 1 and re_h is not None:
+                newb, p_graph, p_proc, npe = H_, hg[0], hp[0], strip_refs(re_h)
         if npe.kind == "call" and npe[1] == "std::iter::Iterator::collect":
             chain = iterator_chain(ctx, newb, npe[2][0])
             names = [c[0] for c in chain]
@@ -1261,6 +1271,7 @@ def O_rules(ctx, rule="O"):
                             g_ok, h_ok, some_arm is False, none_arm is True)
         ctx.check(ok2, rule + "2", "complement", m.where(newb),
                   "fn_ids_not_processed is the node-order filter `!fn_ids_processed.contains(id)` over all nodes of the walked structure", why)
+        newb, p_graph, p_proc = newb0, p_graph0, p_proc0
     # O3: state mapping
     mp = None
     mp_arg = 1
@@ -1882,6 +1893,8 @@ def Q_rules(ctx, rule="Q"):
         g_ok = False
         if srcc:
             ge = strip_refs(expr_operand(b, srcc[0][1]["args"][0]))
+            while ge.kind == "call" and ge[2] and ge[1] in ("daggy::Dag::<N, E, Ix>::graph", "std::ops::Deref::deref", "std::convert::AsRef::as_ref"):
+                ge = strip_refs(ge[2][0])
             g_ok = ge.kind == "field" and ge[2] == roles["graph"] and strip_refs(ge[1]) == E(("arg", 1))
         re5 = return_expr(b)
         if not srcc and re5 is not None:
@@ -1898,8 +1911,9 @@ def Q_rules(ctx, rule="Q"):
                     if ch5[k5][0] == "inline:" + cur5.id:
                         ge5 = strip_refs(subst_args(ge5, [strip_refs(x) for x in ch5[k5][2][2]]))
                         cur5 = ch5[k5][1]
-                while ge5.kind in ("deref", "ref"):
-                    ge5 = strip_refs(ge5)
+                while ge5.kind in ("deref", "ref") or (ge5.kind == "call" and ge5[2] and ge5[1] in (
+                        "daggy::Dag::<N, E, Ix>::graph", "std::ops::Deref::deref", "std::convert::AsRef::as_ref")):
+                    ge5 = strip_refs(ge5[2][0]) if ge5.kind == "call" else strip_refs(ge5)
                 g_ok = cur5.id == b.id and ge5.kind == "field" and ge5[2] == roles["graph"] and strip_refs(ge5[1]) == E(("arg", 1))
         ctx.check(len(srcc) == 1 and not sel and g_ok, rule + "5", "insertion|%s" % nm, m.where(b),
                   "%s returns %s() of self.graph, unfiltered and unreordered" % (nm, fn_),
